@@ -116,7 +116,10 @@ def _verifiers(ctx):
     apps = [c for c in ast.walk(loop) if isinstance(c, ast.Call) and norm(c.func) == 'into.append']
     ok = len(apps) == 1 and norm(apps[0].args[0]) == 'cls._verify_individual(elem)' \
         and not guards(apps[0], stop=loop)
-    ctx.check(ok, 'SINK', '_verify_iterable: every element is verified and appended (or TypeError)',
+    adds = [c for c in ast.walk(loop) if isinstance(c, ast.Call) and isinstance(c.func, ast.Attribute)
+            and c.func.attr in ('append', 'extend', 'insert')]
+    conditional = bool(adds) and all(guards(c, stop=loop) for c in adds)
+    ctx.tri(ok, conditional or not adds, 'SINK', '_verify_iterable: every element is verified and appended (or TypeError)',
               'unconditional into.append(cls._verify_individual(elem))',
               "an element of the iterable can be skipped without an error "
               f"(append under {[norm(t) for t, _ in guards(apps[0], stop=loop)] if apps else 'no append'})",
@@ -180,8 +183,9 @@ def _from_multiple(ctx):
               '_from_multiple: acceptable individuals first')
     str_idx = next((i for i, t in enumerate(tests) if t == 'isinstance(obj, str)'), None)
     else_idx = len(tests) - 1
-    ctx.check(str_idx is not None and str_idx < else_idx and any(
-        isinstance(s, ast.Raise) and 'TypeError' in norm(s) for s in branches[str_idx][1]), 'EXC',
+    ctx.tri(str_idx is not None and str_idx < else_idx and any(
+        isinstance(s, ast.Raise) and 'TypeError' in norm(s) for s in branches[str_idx][1]),
+        not any('str' in t_ for t_ in tests), 'EXC',
         '_from_multiple: an unacceptable str raises TypeError before the generic recursion',
         detail_bad="a str reaches the recursive branch (each character is again a str): RecursionError",
         key="EXC|_from_multiple|str")
@@ -190,7 +194,8 @@ def _from_multiple(ctx):
             continue
         txt = ' '.join(norm(s) for s in body)
         ok = 'into.append(' in txt or 'into.extend(' in txt or 'cls._from_multiple(obj_deeper, into=into)' in txt
-        ctx.check(ok, 'SINK', f"_from_multiple: branch `{t}` adds its objects",
+        empty = not any(isinstance(x, ast.Call) for s_ in body for x in ast.walk(s_))
+        ctx.tri(ok, empty, 'SINK', f"_from_multiple: branch `{t}` adds its objects",
                   detail_bad=f"branch `{t}` drops its object", key=f"SINK|_from_multiple|{t}")
     ctx.check(not any(isinstance(n, (ast.Continue, ast.Pass)) for n in ast.walk(loops[0])), 'SINK',
               '_from_multiple: no object is skipped', detail_bad="continue/pass in the object loop",
